@@ -231,7 +231,7 @@ def parseRR (cfg : PCfg) (upd : Bool) (w : Bytes) (sec count i : Nat) (st : PSta
       let special := rdtype = ConstsC03.typeOPT ∨ rdtype = ConstsC03.typeTSIG
       let hdr : Except PErr (Nat × Option Nat × Bool) :=
         if special then
-          match parseSpecialHeader sec count i name rdclass0 rdtype st.opt.isSome with
+          match parseSpecialHeader sec count i absName rdclass0 rdtype st.opt.isSome with
           | .error e => .error e
           | .ok _ => .ok (rdclass0, none, false)
         else parseRRHeader upd st.q sec rdclass0 rdtype
@@ -253,7 +253,9 @@ def parseRR (cfg : PCfg) (upd : Bool) (w : Bytes) (sec count i : Nat) (st : PSta
           else if rdtype = ConstsC03.typeTSIG then
             match parseTsigRData w start endp absName with
             | .error e => .error e
-            | .ok t => if cfg.hasKey then .ok { st with cur := endp, tsig := some t } else .error .unknownTSIGKey
+            | .ok t =>
+              if ttl ≠ 0 then .error .badTSIG      -- RFC 8945 §4.2: the TTL MUST be 0
+              else if cfg.hasKey then .ok { st with cur := endp, tsig := some t } else .error .unknownTSIGKey
           else
             match parseRData w start endp cfg.origin rdtype with
             | .error e => .error e
